@@ -862,7 +862,6 @@ func randUJSONC14(rng *rand.Rand) string {
 	}
 }
 
-
 // ---- texts for time.ParseDuration (op C14.std.parsedur)
 
 // parseDurFixedC14: the malformed stream and the edges of every overflow test of
